@@ -238,4 +238,13 @@ def serialize (m : OMap Obj) (order : List Nat) : List Nat :=
 /-- `dump_table` when the Kahn order has no overflow: sort, serialise -/
 def packSimple (m : OMap Obj) (root : Nat) : List Nat := serialize m (sortKahn m root)
 
+/-! ## one compilation, abstracted from the ids it happens to draw -/
+
+/-- What `TableWriter` does, with the ids abstracted: `tmpl` is the list of distinct `TableData` in the order in which
+    they are first added to the `ObjectStore` (each gets the next id the compiling thread draws: `ids`), link targets in
+    `tmpl` are indices into that list.  The result is the content of the `HashMap<TableData, ObjectId>`. -/
+def instantiate (tmpl : List Obj) (ids : List Nat) : List (Obj × Nat) :=
+  (tmpl.zip ids).map (fun p =>
+    ({ bytes := p.1.bytes, links := p.1.links.map (fun l => { l with target := ids.getD l.target 0 }) }, p.2))
+
 end FontVerif.Determinism
